@@ -9,6 +9,7 @@ import (
 	"errors"
 	"fmt"
 	"reflect"
+	"runtime"
 	"sort"
 	"strings"
 	"time"
@@ -531,6 +532,17 @@ func (w *world) main() {
 				break
 			}
 		}
+		// a nil Task is a legal argument: starting it panics (nil interface) inside
+		// the worker, like any other panicking task
+		if panicky > 0 && ch("nil.tasks", 3) == 0 {
+			simrt.Probe("nil_task_pushed")
+			for k := 0; k < w.lanes && k < 6; k++ {
+				if w.lane.PushTask(nil, k) == nil {
+					w.raised = append(w.raised, nilTaskPanic{})
+				}
+			}
+			simrt.Settle()
+		}
 		w.checkPending("drained")
 		// C14 head count after the panics: every worker must still be there
 		gate2 := simrt.MakeChan[struct{}](0)
@@ -641,7 +653,14 @@ func (w *world) startWaiter() {
 
 // samePanic compares two panic values; values of uncomparable type (slices,
 // maps, structs holding them) carry the task id and are compared deeply.
+// nilTaskPanic stands for the runtime error raised by starting a nil Task.
+type nilTaskPanic struct{}
+
 func samePanic(a, b any) (eq bool) {
+	if _, ok := a.(nilTaskPanic); ok {
+		re, isRE := b.(runtime.Error)
+		return isRE && strings.Contains(re.Error(), "nil pointer")
+	}
 	defer func() {
 		if recover() != nil {
 			eq = reflect.DeepEqual(a, b)
